@@ -1,7 +1,7 @@
 (* C09 for the model of http.c: the request bytes, and the decoding of rendered well-formed
    responses (HttpSpec.render / expect). *)
 From Coq Require Import Arith NArith ZArith List Bool Lia.
-From LCP Require Import Base.CheckedMem Gen.Repo_http Http.HttpStrto Http.HttpModel Http.HttpSpec
+From LCP Require Import Base.CheckedMem Gen.Repo_http Http.HttpStrto Http.HttpModel Http.HttpSpec Http.HttpNum
   Http.HttpLemmas Http.HttpSafe.
 Import ListNotations.
 Local Open Scope N_scope.
@@ -283,4 +283,195 @@ Proof.
     rewrite (cut_line_nocr (field_line f) _ C1), C2.
     rewrite (IH tail _ _ Hfs). cbn [rev]. rewrite (split_header_field a f Hf), <- app_assoc. cbn [app].
     f_equal. f_equal. f_equal. rewrite !lenN_app, !lenN_cons. change sgetline_skip with 2. lia.
+Qed.
+
+(* ================================================================== M2: a rendered header block *)
+Definition status_line (m : msg) : list N :=
+  http_1_dot ++ m_minor m ++ [SP] ++ dec (m_status m) ++ [SP] ++ m_reason m.
+
+Lemma render_head_lines m fs :
+  render_head m fs = status_line m ++ [13; 10] ++ concat (map render_field fs) ++ [13; 10].
+Proof. unfold render_head, status_line, crlf, CR, LF. rewrite <- !app_assoc. reflexivity. Qed.
+
+Lemma has_nul_app a b : has_nul (a ++ b) = has_nul a || has_nul b.
+Proof.
+  unfold has_nul. induction a as [|x a IH]; [reflexivity|]. cbn [app memb]. rewrite IH. apply orb_assoc.
+Qed.
+
+Definition clean (l : list N) : Prop := no_cr l /\ has_nul l = false.
+
+Lemma clean_app a b : clean a -> clean b -> clean (a ++ b).
+Proof.
+  intros [A1 A2] [B1 B2]. split.
+  - unfold no_cr in *. rewrite Forall_app. split; assumption.
+  - rewrite has_nul_app, A2, B2. reflexivity.
+Qed.
+
+Lemma clean_forall l : (forall c, In c l -> c <> 13 /\ c <> 0) -> clean l.
+Proof.
+  intros H. split.
+  - apply Forall_forall. intros c Hc. apply (H c Hc).
+  - apply has_nul_false. intros c Hc. apply (H c Hc).
+Qed.
+
+Lemma clean_digits ds : forallb is_dec_digit ds = true -> clean ds.
+Proof.
+  intros H. apply clean_forall. intros c Hc. rewrite forallb_forall in H.
+  pose proof (dec_digit_ge c (H c Hc)). lia.
+Qed.
+
+Lemma clean_no_ctl l : no_ctl l = true -> clean l.
+Proof. intros H. destruct (no_ctl_facts l H). split; assumption. Qed.
+
+Lemma wf_msg_parts lo hi a m : wf_msg lo hi a m = true ->
+  m_minor m <> [] /\ forallb is_dec_digit (m_minor m) = true /\ lo <= m_status m <= hi /\
+  no_ctl (m_reason m) = true /\ forallb (wf_field a) (m_fields m) = true.
+Proof.
+  unfold wf_msg. rewrite !andb_true_iff. intros [[[[[H1 H2] H3] H4] H5] H6].
+  apply N.leb_le in H3. apply N.leb_le in H4.
+  repeat split; try assumption. destruct (m_minor m); [discriminate | discriminate].
+Qed.
+
+Lemma status_line_clean lo hi a m : wf_msg lo hi a m = true -> clean (status_line m).
+Proof.
+  intros H. destruct (wf_msg_parts _ _ _ _ H) as (M1 & M2 & M3 & M4 & _).
+  destruct (dec_spec (m_status m)) as (_ & D2 & _).
+  unfold status_line. repeat apply clean_app.
+  - apply clean_forall. unfold http_1_dot. cbn [In]. intros c Hc.
+    repeat (destruct Hc as [<- | Hc]; [split; discriminate|]). contradiction.
+  - apply clean_digits. exact M2.
+  - apply clean_forall. cbn [In]. intros c [<- | []]. split; discriminate.
+  - apply clean_digits. exact D2.
+  - apply clean_forall. cbn [In]. intros c [<- | []]. split; discriminate.
+  - apply clean_no_ctl. exact M4.
+Qed.
+
+(* sscanf(line, "HTTP/%d.%d %d ", ...) step by step *)
+Lemma scanf_lit f fmt s vals : (f =? 37) = false -> is_space f = false ->
+  scanf_m (f :: fmt) (f :: s) vals = scanf_m fmt s vals.
+Proof. intros H1 H2. cbn [scanf_m]. rewrite H1, H2, N.eqb_refl. reflexivity. Qed.
+
+Lemma scanf_d fmt s vals :
+  scanf_m (37 :: 100 :: fmt) s vals =
+  match scan_int s with Some (v, rest) => scanf_m fmt rest (vals ++ [v]) | None => vals end.
+Proof. reflexivity. Qed.
+
+Lemma scanf_sp fmt s vals : scanf_m (32 :: fmt) s vals = scanf_m fmt (drop_space s) vals.
+Proof. reflexivity. Qed.
+
+Lemma drop_space_stop d l : 48 <= d -> drop_space (d :: l) = d :: l.
+Proof. intros H. cbn [drop_space]. rewrite (is_space_ge d H). reflexivity. Qed.
+
+Lemma scanf_status_line lo hi a m : wf_msg lo hi a m = true -> hi <= 599 ->
+  exists minor, scanf_m status_format (status_line m) [] = [1%Z; minor; Z.of_N (m_status m)].
+Proof.
+  intros H Hhi. destruct (wf_msg_parts _ _ _ _ H) as (M1 & M2 & M3 & M4 & _).
+  destruct (dec_spec (m_status m)) as (D1 & D2 & D3).
+  unfold status_line, http_1_dot, status_format. cbn [app].
+  do 5 (rewrite scanf_lit by reflexivity).
+  rewrite scanf_d.
+  destruct (scan_int_digits [49] 46 (m_minor m ++ SP :: dec (m_status m) ++ SP :: m_reason m)
+              ltac:(discriminate) eq_refl eq_refl) as (z1 & E1 & V1).
+  cbn [app] in E1. rewrite E1. rewrite (V1 1) by (try reflexivity; lia).
+  rewrite scanf_lit by reflexivity.
+  rewrite scanf_d.
+  destruct (scan_int_digits (m_minor m) SP (dec (m_status m) ++ SP :: m_reason m) M1 M2 eq_refl)
+    as (z2 & E2 & _).
+  rewrite E2. rewrite scanf_sp.
+  destruct (dec (m_status m)) as [|d0 ds] eqn:Ed; [contradiction|]. rewrite <- Ed in *.
+  assert (Hd0 : 48 <= d0).
+  { pose proof D2 as D2'. rewrite Ed in D2'. cbn [forallb] in D2'. apply andb_true_iff in D2'.
+    destruct D2' as [D2' _]. pose proof (dec_digit_ge _ D2'). lia. }
+  cbn [drop_space]. change (is_space SP) with true. cbv iota.
+  rewrite Ed. change ((d0 :: ds) ++ SP :: m_reason m) with (d0 :: (ds ++ SP :: m_reason m)).
+  rewrite (drop_space_stop d0 _ Hd0).
+  change (d0 :: (ds ++ SP :: m_reason m)) with ((d0 :: ds) ++ SP :: m_reason m). rewrite <- Ed.
+  rewrite scanf_d.
+  destruct (scan_int_digits (dec (m_status m)) SP (m_reason m) D1 D2 eq_refl) as (z3 & E3 & V3).
+  rewrite E3. rewrite (V3 (m_status m) D3) by lia.
+  rewrite scanf_sp. cbn [scanf_m app]. eauto.
+Qed.
+
+Lemma count_lines_fields a fs : forallb (wf_field a) fs = true ->
+  count_lines (concat (map render_field fs) ++ [13; 10]) false = N.of_nat (length fs) + 1.
+Proof.
+  induction fs as [|f fs IH]; intros H; [reflexivity|].
+  cbn [forallb] in H. apply andb_true_iff in H. destruct H as [Hf Hfs].
+  cbn [map concat]. rewrite render_field_line, <- !app_assoc.
+  destruct (field_line_clean a f Hf) as [C1 _].
+  rewrite (count_lines_line (field_line f) _ C1). rewrite (IH Hfs).
+  cbn [length]. rewrite Nat2N.inj_succ. lia.
+Qed.
+
+Lemma count_lines_head lo hi a m b fs : wf_msg lo hi a m = true -> forallb (wf_field b) fs = true ->
+  count_lines (render_head m fs) false = N.of_nat (length fs) + 2.
+Proof.
+  intros H Hfs. rewrite render_head_lines.
+  destruct (status_line_clean _ _ _ _ H) as [C1 _].
+  rewrite (count_lines_line (status_line m) _ C1), (count_lines_fields b fs Hfs). lia.
+Qed.
+
+Lemma lenN_head m fs :
+  lenN (render_head m fs) = lenN (status_line m) + 2 + lenN (concat (map render_field fs)) + 2.
+Proof. rewrite render_head_lines, !lenN_app. change (lenN [13; 10]) with 2. lia. Qed.
+
+Definition nv (f : hfield) : list N * list N := (f_name f, f_value f).
+
+(* M2: gotheaders on a window that starts with a rendered header block: the block is consumed, the
+   status and exactly the (name, value) pairs - optional white space trimmed - are extracted in
+   order; a 1xx block restarts the header scan, any other goes on to the choice of the framing *)
+Theorem headers_roundtrip lo hi a m fs h post :
+  wf_msg lo hi a m = true -> 100 <= lo -> hi <= 599 -> forallb (wf_field true) fs = true ->
+  rdr_ok (h_r h) -> r_win (h_r h) = render_head m fs ++ post ->
+  exists r', rdr_consume (h_r h) (lenN (render_head m fs)) = Ok r' /\ rdr_ok r' /\ r_win r' = post /\
+    gotheaders h (lenN (render_head m fs)) =
+    if m_status m <=? 199 then Ok (SCont (set_hepos (set_r h r') 0) PhHeader)
+    else select_framing (set_resp (set_r h r') (Z.of_N (m_status m)) (map nv fs)).
+Proof.
+  intros Hm Hlo Hhi Hfs R W.
+  destruct (wf_msg_parts _ _ _ _ Hm) as (M1 & M2 & M3 & M4 & _).
+  pose proof (avail_win _ R) as Av.
+  assert (Hlen : lenN (render_head m fs) <= avail (h_r h)) by (rewrite Av, W, lenN_app; lia).
+  destruct (consume_ok _ _ R Hlen) as (r' & Ec & R' & Wr' & _).
+  exists r'. split; [exact Ec|]. split; [exact R'|].
+  split; [rewrite Wr', W; apply dropN_app_exact|].
+  unfold gotheaders. rewrite Ec. cbn [bind]. rewrite W, takeN_app_exact.
+  rewrite (count_lines_head _ _ _ _ _ _ Hm Hfs).
+  replace (N.of_nat (length fs) + 2 <? nonheader_lines) with false
+    by (symmetry; apply N.ltb_ge; change nonheader_lines with 2; lia).
+  destruct (status_line_clean _ _ _ _ Hm) as [C1 C2].
+  rewrite render_head_lines at 1. rewrite (cut_line_nocr (status_line m) _ C1), C2.
+  destruct (scanf_status_line _ _ _ _ Hm Hhi) as [minor Es]. rewrite Es.
+  change (lenN [1%Z; minor; Z.of_N (m_status m)] <? status_min_conversions) with false. cbv iota.
+  cbn [nth]. change (negb (1 =? Z.of_N http_major)%Z) with false. cbv iota.
+  replace ((Z.of_N (m_status m) <? Z.of_N status_lo) || (Z.of_N status_hi <? Z.of_N (m_status m)))%Z
+    with false.
+  2:{ symmetry. apply orb_false_iff. change status_lo with 100. change status_hi with 599.
+      split; apply Z.ltb_ge; lia. }
+  replace (N.to_nat (N.of_nat (length fs) + 2 - nonheader_lines)) with (length fs)
+    by (change nonheader_lines with 2; lia).
+  rewrite (parse_headers_render true fs [13; 10] _ [] Hfs). cbn [bind rev app].
+  replace (negb (lenN (status_line m) + sgetline_skip + lenN (concat (map render_field fs)) + final_blank_len
+                 =? lenN (render_head m fs))) with false.
+  2:{ symmetry. apply negb_false_iff, N.eqb_eq. rewrite lenN_head.
+      change sgetline_skip with 2. change final_blank_len with 2. lia. }
+  cbv iota.
+  change (Z.of_N interim_lo) with 100%Z. change (Z.of_N interim_hi) with 199%Z.
+  replace (100 <=? Z.of_N (m_status m))%Z with true by (symmetry; apply Z.leb_le; lia).
+  cbn [andb].
+  destruct (m_status m <=? 199) eqn:E.
+  - apply N.leb_le in E. replace (Z.of_N (m_status m) <=? 199)%Z with true by (symmetry; apply Z.leb_le; lia).
+    reflexivity.
+  - apply N.leb_gt in E. replace (Z.of_N (m_status m) <=? 199)%Z with false by (symmetry; apply Z.leb_gt; lia).
+    reflexivity.
+Qed.
+
+Example headers_roundtrip_nonvacuous :
+  let m := mkM [49] 200 [79; 75] [] in
+  let fs := [mkF [65] [98; 58; 99] [SP; HT] [SP]; mkF [66] [] [] []] in
+  wf_msg 200 599 false m = true /\ forallb (wf_field true) fs = true /\
+  rdr_ok (mkR 4096 0 (lenN (render_head m fs)) (render_head m fs)).
+Proof.
+  cbv zeta. split; [vm_compute; reflexivity|]. split; [vm_compute; reflexivity|].
+  constructor; cbn [r_bufpos r_datalen r_buflen r_win]; vm_compute; try reflexivity; discriminate.
 Qed.
